@@ -420,7 +420,7 @@ def _c15_known_match(k, sess, real_out, model_out):
             return False
     try:
         hdr = sess[0].split()
-        bug_sess = [" ".join(hdr[:7] + ["bug"])] + list(sess[1:])
+        bug_sess = [" ".join(hdr + ["bug"])] + list(sess[1:])
         p = _sp.run([_FMODEL, "run"], input="\n".join(bug_sess) + "\n", stdout=_sp.PIPE, text=True, timeout=60)
         as_is = p.stdout.split("\n")
         if as_is and as_is[-1] == "":
@@ -431,7 +431,8 @@ def _c15_known_match(k, sess, real_out, model_out):
 
 
 _C15_RULE = ("sessions = one real Flame with flamego.Recovery() at a chosen position (exhaustive: every position of every stack of "
-        "depth<=3/4 over a 12-handler alphabet; then random stacks up to depth 7/10, ~3% with a panicking Before hook), "
+        "depth<=3/4 over a 12-handler alphabet, methods GET/HEAD/POST cycling; every HEAD stack of depth<=3 over 8 handlers that "
+        "answer without an explicit status; then random stacks up to depth 7/10 with a random method, ~3% with a panicking Before hook), "
         "2-3 requests per instance; distinct by op text; non-trivial = a panic actually happened in a request (a handler was "
         "unwound, Recovery's body reached the client, or a panic escaped)")
 
@@ -466,12 +467,14 @@ PROPS["C03"] = {
     "level_text": "Every clause of C03 is a Lean theorem over Model/Chain for all chains (middleware, group, route handlers, "
                   "optional/nil action) and all handler programs; the model is tied to context.go/flame.go/router.go by an "
                   "exhaustive small-scope and random differential check against a real *flamego.Flame on every run.",
-    "level_note": "Trusted: Lean kernel; hand-written model tied by differential testing; handlers are finite programs; GET only.",
+    "level_note": "Trusted: Lean kernel; hand-written model tied by differential testing; handlers are finite programs; methods GET/HEAD/POST.",
     "props_modules": ["Flamego.Props.C03"],
     "suite": "C03",
     "stats": generic_stats(_c03_nontrivial,
         "sessions = one real Flame per handler stack (exhaustive over stacks of depth<=3 (quick) / 4 (thorough) from a "
-        "13-handler alphabet, spread over all middleware/group/route/action layouts, then random stacks up to depth 7/10); "
+        "15-handler alphabet, spread over all middleware/group/route/action layouts; methods GET/HEAD/POST all three for depth<=2, "
+        "cycling for deeper stacks; plus every HEAD stack of depth<=3 over 8 handlers that answer without an explicit status; "
+        "then random stacks up to depth 7/10 with a random method); "
         "distinct by op text; non-trivial = a handler called Next() and >=2 handlers started in one request, or the chain "
         "was cut short after a write/cancel"),
     "known_match": no_known,
